@@ -39,6 +39,16 @@ SCI = "batchie.models.sparse_combo_interaction"
 HELPER = "copy_array_with_control_treatments_set_to_zero"
 
 
+def helper_fn(ctx):
+    """the control-zeroing helper with `np.copyto(dst, 0, where=<row mask broadcast>)` read as the store `dst[mask] = 0`"""
+    import copy as _copy
+    from engine.normalize import copyto_as_store
+    f = ctx.fn(f"batchie.common.{HELPER}")
+    g = _copy.copy(f)
+    g.node = copyto_as_store(f.node)
+    return g
+
+
 def predict_roots(ctx):
     R = ctx.R
     out = []
@@ -85,7 +95,7 @@ def r1(ctx):
         else:
             ctx.ok("R1", f"{f.site()}::purity", "no attribute store, no mutation of a borrowed array")
     # anchor: helper's zeroing writes into a fresh gather
-    f = ctx.fn(f"batchie.common.{HELPER}")
+    f = helper_fn(ctx)
     fr = Freshness(f.node)
     st = [m for m in fr.mutations() if m[2] == "subscript-store"]
     ctx.need(len(st) == 1, f"{HELPER}: expected exactly one zeroing store")
@@ -216,7 +226,7 @@ def r4(ctx):
                   f"treatment-indexed parameters are gathered directly by treatment ids ({raw}): a control id (-1) would pick the last "
                   f"treatment's embedding instead of contributing nothing")
     # the helper
-    f = ctx.fn(f"batchie.common.{HELPER}")
+    f = helper_fn(ctx)
     arr, ids = f.params[0], f.params[1]
     env = single_defs(f.node)
     st = [n for n in walk_own(f.node) if isinstance(n, ast.Assign) and isinstance(n.targets[0], ast.Subscript)]
@@ -232,7 +242,7 @@ def r4(ctx):
     N = Norm(strict=False)
     sentinel = R.const_value(f.mod, "CONTROL_SENTINEL_VALUE")
     sent_ok = sentinel is not None and U(sentinel) == "-1"
-    sel_ok = N.b(first) in (N.b(parse_expr(f"{ids} == CONTROL_SENTINEL_VALUE")), N.b(parse_expr(f"{ids} == -1")))
+    sel_ok = N.b(inline(first, env)) in (N.b(parse_expr(f"{ids} == CONTROL_SENTINEL_VALUE")), N.b(parse_expr(f"{ids} == -1")))
     val_ok = U(st[0].value) in ("0.0", "0")
     ret_ok = [U(r.value) for r in returns(f.node)] == [res]
     ctx.check("R4", f"{f.site()}::zeroes-sentinel-rows", g_ok and sel_ok and val_ok and ret_ok and sent_ok,
